@@ -21,10 +21,16 @@ def run(tier, seed, ev):
                     ("quarantine_orphans", [("no file under cas/ is opened for writing or written", T.p_cas_never_written, "cas_never_written", "strace")])]
             if n != Ns[0]:
                 plan = plan[:1]
-            rc = max(rc, tprop.run_t(PROP, tier, seed, ev, ex, plan, N=n), key=lambda x: (x == 1, x))
+            rc = tcommon.best(rc, tprop.run_t(PROP, tier, seed, ev, ex, plan, N=n))
             if tier == "thorough":
                 plan_async = [("put.finish", [("Async mode: staged blob flushed and handed to the sync thread before the rename",
                                                lambda sw, f: T.p_stage_complete_before_rename(sw, f, "async"), "stage_complete_before_rename", "strace")])]
-                rc = max(rc, tprop.run_t(PROP, tier, seed, ev, ex, plan_async, N=n, sync_mode="async"), key=lambda x: (x == 1, x))
+                rc = tcommon.best(rc, tprop.run_t(PROP, tier, seed, ev, ex, plan_async, N=n, sync_mode="async"))
+        import mprop
+        import obl_api as A
+        obs = [(f"Transaction::write x{n}: the bytes reach the staging file in the order written (= the order hashed)", "tx_write_streams",
+                (lambda n: lambda ex: A.ob_tx_write(ex, n))(n)) for n in (1, 2)]
+        rc = tcommon.best(rc, mprop.run_m(PROP, tier, seed, ev, ex, obs, [("src/lib.rs", "replay_content.rs", "verif_replay_content")],
+                                          "replay_content_identity"))
         tcommon.fill(ev, ex, mir_s, Ns, ["a reader keeps streaming after unlink: POSIX open-file semantics (kernel)"])
         return rc
